@@ -300,6 +300,11 @@ def run(tier):
     for t in HOSTILE_FIXED:
         texts.append((t, 14))
     texts += REGRESSION_TEXTS
+    # with F15's query tree-sitter's own matches differ between identical runs (about two runs in three leave the capture unbound):
+    # the text runs sixteen times, told apart by a closing comment
+    for k in range(8):
+        for s in (2, 10):
+            texts.append((REGRESSION_TEXTS[0][0] + "; %d %d\n" % (k, s), s))
     for t, s in base_texts:
         for m in mutations(t, r, tier == "thorough" and len(t) < 300):
             texts.append((m, s))
